@@ -52,9 +52,14 @@ class MemFS:
         self.read_monitor = None      # callable(path, bytes) for every completed read
         self.list_reverse = False     # directory listing order: sorted or reverse sorted (the kernel promises no order)
         self.cwd = "/"
+        self.dead = False
 
     # ------------------------------------------------------------------ step machinery
     def tick(self, name, *args):
+        if self.dead:
+            # the process died at an earlier step: clean-up code (finally / __exit__ / bare except) run by the interpreter while the
+            # Crash exception unwinds must not touch the file system any more
+            raise Crash("dead", name, args)
         idx = self.step
         self.step += 1
         if self.logging:
@@ -63,6 +68,7 @@ class MemFS:
         if act is None:
             return None
         if act[0] == "crash":
+            self.dead = True
             raise Crash(idx, name, args)
         if act[0] == "fail":
             if name in NOFAULT_STEPS:
@@ -71,6 +77,7 @@ class MemFS:
         if act[0] == "torn":
             if name == "write":
                 return act
+            self.dead = True
             raise Crash(idx, name, args)
         raise ValueError(act)
 
@@ -127,6 +134,10 @@ class MemFS:
             cur += "/" + x
             if cur not in self.tree:
                 self.tree[cur] = self._new(None)
+
+    def revive(self):
+        """after a simulated crash: the 'restarted' harness may use the file system again"""
+        self.dead = False
 
     def get(self, p):
         p = self._norm(p)
@@ -486,8 +497,14 @@ class _Writer:
         data = bytes(data)
         act = self.fs.tick("write", self.p, len(data))
         if act is not None and act[0] == "torn":
-            n = max(0, min(len(data), act[1]))
+            n = act[1]
+            if n == -1:
+                n = len(data) - 1      # all but the last byte
+            elif n == -2:
+                n = len(data) // 2     # half
+            n = max(0, min(len(data), n))
             self.fs._do_write(self.h, data[:n])
+            self.fs.dead = True
             raise Crash("torn", self.p, n)
         self.fs._do_write(self.h, data)
         return len(data)
